@@ -2,14 +2,14 @@
 //! agent with a tiny queue, driven by a script; observation = which offered
 //! changes the bookkeeping knows after every step.
 use crate::{agentkit, c04::actor_of, util::Toks};
-use klukai_agent::agent::verif_hooks::{handle_changes, VERIF_FAIL_BATCHES};
+use klukai_agent::agent::verif_hooks::{handle_changes, VERIF_FAIL_BATCHES, VERIF_INGEST_STATE};
 use klukai_types::{
     actor::ActorId,
     agent::Bookie,
     base::{CrsqlDbVersion, CrsqlSeq},
     broadcast::{ChangeSource, ChangeV1},
 };
-use std::{sync::atomic::Ordering, time::Duration};
+use std::{sync::atomic::Ordering, time::{Duration, Instant}};
 
 #[derive(Clone)]
 struct Off {
@@ -86,22 +86,33 @@ pub fn ingest(t: &mut Toks) -> String {
         let mut offered: Vec<Off> = vec![];
         let mut held = None;
         let mut outs = vec![];
-        let barrier = |agent: klukai_types::agent::Agent| async move {
-            tokio::time::sleep(Duration::from_millis(25)).await;
-            let c = agent.pool().write_normal().await.unwrap();
-            drop(c);
-            tokio::time::sleep(Duration::from_millis(10)).await;
+        // deterministic quiescence: handle_changes publishes (received, queue length, batches in flight)
+        // every time it is about to wait for the next event
+        let wait_state = |want_received: u64, held: bool| async move {
+            let t0 = Instant::now();
+            loop {
+                let w = VERIF_INGEST_STATE.load(Ordering::SeqCst);
+                let (recv, q, infl) = (w >> 32, (w >> 16) & 0xffff, w & 0xffff);
+                if recv == want_received && ((held && infl <= 1) || (!held && q == 0 && infl == 0)) {
+                    break;
+                }
+                if t0.elapsed() > Duration::from_secs(20) {
+                    break;
+                }
+                tokio::time::sleep(Duration::from_millis(2)).await;
+            }
         };
+        VERIF_INGEST_STATE.store(0, Ordering::SeqCst);
+        let mut n_offered: u64 = 0;
         for op in ops {
             match op {
                 Op::Hold => {
                     held = Some(agent.pool().write_normal().await.unwrap());
                 }
                 Op::Release => {
-                    tokio::time::sleep(Duration::from_millis(40)).await;
+                    wait_state(n_offered, true).await;
                     held = None;
-                    barrier(agent.clone()).await;
-                    barrier(agent.clone()).await;
+                    wait_state(n_offered, false).await;
                 }
                 Op::Fail(n) => VERIF_FAIL_BATCHES.store(n, Ordering::SeqCst),
                 Op::Offer(o) => {
@@ -129,11 +140,8 @@ pub fn ingest(t: &mut Toks) -> String {
                         offered.push(o.clone());
                     }
                     agent.tx_changes().send((cv1, ChangeSource::Sync)).await.unwrap();
-                    if held.is_none() {
-                        barrier(agent.clone()).await;
-                    } else {
-                        tokio::time::sleep(Duration::from_millis(5)).await;
-                    }
+                    n_offered += 1;
+                    wait_state(n_offered, held.is_some()).await;
                 }
             }
             // observation: which of the changes offered so far are known to the bookkeeping
